@@ -48,7 +48,7 @@ Fixpoint sp_stream_cat (k : nat) (c : scatalog) (cx : ctx) (l : list N) : option
       | 224 :: 1 :: 0 :: 234 :: r =>
         match spec_step c cx IVM with Ok cx' => sp_stream_cat k' c cx' r | _ => None end
       | _ =>
-        match sp_value k cx l with
+        match sp_value k [Slots cx] l with
         | Some (None, r) => sp_stream_cat k' c cx r
         | Some (Some v, r) =>
           match is_lst v with
